@@ -65,6 +65,24 @@ CLAIMED = {
           '1,2,3,7,500 and the produced bytes (also re-segmented) are ingested by the real listeners; names, order, count, '
           'timestamps and values are compared per the statement (exact arithmetic for the line tolerance).',
           'protobuf pair not runnable.', 'DESIGN.md 3/C15'),
+  'C16': ('exploration', 'differential against evaluators written from the documented rule-file formats',
+          'Generated relay-rules.conf files (patterns, continue spellings, default placement, decoys, destination subsets) and '
+          'aggregation-rules.conf files (literals, *, <field>, <<field>>) are loaded by the real routers / RuleManager; '
+          'set(getDestinations(name)) is compared with an independent evaluator (own INI reader, own backtracking pattern '
+          'matcher, reference ring) for names that hit, miss and nearly miss; inputs of one aggregate must share destinations.',
+          'Aggregation literals restricted to [a-z0-9_-]; regex semantics of Python re trusted.', 'DESIGN.md 3/C16'),
+  'C19': ('exploration', 'recorded database.create() arguments vs independent first-match evaluator and retention parser',
+          'Generated storage-schemas.conf / storage-aggregation.conf (missing keys, every unit suffix, multi-archive retentions, '
+          'overlapping patterns; every order of section sets <=4) are reloaded by the daemon\'s own reload functions; metrics '
+          'matching 0/1/many sections are stored and one real writeCachedDataPoints() pass runs against the in-memory backend; '
+          'recorded create() arguments must equal the evaluator.',
+          'Invalid retention strings not generated (daemon exits).', 'DESIGN.md 3/C19'),
+  'C20': ('exploration', 'all-pairs window oracle over the grant log of the real TokenBucket / writer on a virtual clock',
+          'Histories of blocking / non-blocking acquisitions, clock advances (0 .. 1e6) and limit changes run on the real '
+          'TokenBucket with time/sleep doubled; every pair of grants in a regime is checked against rate*w + 2*burst and every '
+          'blocking wait against deficit/rate. Writer level: real writeCachedDataPoints() with module-level buckets rebuilt by '
+          'carbon\'s own code, incl. shutdownModifyUpdateSpeed(); same oracle on create()/write() call times.',
+          'Virtual clock; float tolerance 1e-6 plus clock resolution.', 'DESIGN.md 3/C20'),
 }
 
 NOT_YET = 'check not built yet (work in progress; see DESIGN.md)'
